@@ -1,7 +1,7 @@
 """C08 Prior transforms are monotone inverse-CDF maps in the declared space."""
 import ast
 
-from sa.helpers import (mkflow, spec, code, one, calls, bind_call, param_env,
+from sa.helpers import (validated, unlicensed, the_return, mkflow, spec, code, one, calls, bind_call, param_env,
                         fmt, atom_of, unparse, walk_no_nested)
 from sa.index import AnalysisError, ClassInfo
 
@@ -69,7 +69,7 @@ def _run(ix, R):
         pe = param_env(fl, f, ['b'])
         sb = [e for e in calls(fl, 'set_bounds')]
         ok = len(sb) == 1 and fl.tab.equal(sb[0].args[0], pe['b']) and not sb[0].guards[0:0] and \
-            all(g.early for g in sb[0].guards)
+            all(validated(g) for g in sb[0].guards)
         R.check('1.uniform.init', 'DOM', site, 'constructor hands its bounds to set_bounds', ok,
                 key='set_bounds calls %d' % len(sb), detail='set_bounds(%s)' % [fmt(fl, a) for e in sb for a in e.args],
                 loc=f.loc())
@@ -84,7 +84,7 @@ def _run(ix, R):
             f = ix.func(site)
             fl = mkflow(ix, site)
             pe = param_env(fl, f, ['x']) if len(f.params()) > 1 else {}
-            r = one(fl.of('return'), 'return')
+            r = the_return(fl)
             R.check('1.%s.%s' % (cls, fn), 'ALG', site, stmt, fl.tab.equal(r.value, spec(fl, want, pe)) and not r.guards,
                     key='returns %s' % fmt(fl, r.value), detail='returns %s' % fmt(fl, r.value), loc=f.loc(r.node))
     site = PR + '::Gaussian.__init__'
